@@ -918,6 +918,11 @@ func (ssl *SSLAuthenticator) exchangeSciToken(ctx context.Context, negotiation *
 
 		tokenSize := int(sizeBytes[0])<<24 | int(sizeBytes[1])<<16 | int(sizeBytes[2])<<8 | int(sizeBytes[3])
 		slog.Info("🔐 SSL: Expecting SciToken", "bytes", tokenSize, "destination", "cedar")
+		// The size is peer-controlled (up to 4 GiB); bound it before sizing the
+		// buffer, with the same limit the TOKEN method applies to its tokens.
+		if tokenSize > AUTH_PW_MAX_TOKEN_LEN {
+			return "", fmt.Errorf("SciToken size (%d bytes) exceeds maximum (%d)", tokenSize, AUTH_PW_MAX_TOKEN_LEN)
+		}
 
 		// Read token data
 		tokenBytes := make([]byte, tokenSize)
